@@ -15,6 +15,8 @@
 #include "stir/recon_buildblock/PoissonLogLikelihoodWithLinearModelForMeanAndProjData.h"
 #include "stir/recon_buildblock/BinNormalisationFromProjData.h"
 #include "stir/recon_buildblock/TrivialBinNormalisation.h"
+#include "stir/ProjDataInfoCylindricalNoArcCorr.h"
+#include "stir/DetectionPositionPair.h"
 #include <atomic>
 #include <chrono>
 #include <thread>
@@ -34,7 +36,7 @@ struct Perturb
   uint64_t seed = 0;
   int intensity = 1; // 0: yields only, 1: + short spins, 2: + sleeps
   int num_low_priority = 0;
-  std::atomic<unsigned long> site_thread_mask[16];
+  std::atomic<unsigned long> site_thread_mask[24];
   std::atomic<long> hits{ 0 };
 };
 Perturb g_perturb;
@@ -60,12 +62,30 @@ ucl_stir_verif_schedule_point(int site)
   const int tid = 0;
 #endif
   g_perturb.hits.fetch_add(1, std::memory_order_relaxed);
-  if (site >= 0 && site < 16)
+  if (site >= 0 && site < 24)
     g_perturb.site_thread_mask[site].fetch_or(1UL << (tid & 63), std::memory_order_relaxed);
   const long visit = t_visits++;
   const uint64_t h = mix(g_perturb.seed ^ (uint64_t(tid) << 48) ^ (uint64_t(site) << 40) ^ uint64_t(visit));
   // PCT-style: a few "low priority" threads are delayed much more often during their first visits
   const bool low = int(mix(g_perturb.seed ^ (uint64_t(tid) * 0x9e3779b97f4a7c15ULL)) % 8) < g_perturb.num_low_priority;
+  if (site >= 14 && site <= 19)
+    { // inside a (locked) lazy initialisation, which happens once per object: make it slow so that a thread
+      // arriving meanwhile really has to wait (healthy code) or runs ahead with incomplete tables (broken code)
+      if (g_perturb.intensity >= 1 || (h & 1))
+        std::this_thread::sleep_for(std::chrono::microseconds(200 + (h >> 8) % 1800));
+      return;
+    }
+  if (site == 20 || site == 21)
+    { // holding a cache lock: occasionally hold it a little longer
+      if (h % 100 < 5)
+        {
+          const auto until = std::chrono::steady_clock::now() + std::chrono::microseconds(5 + (h >> 8) % 100);
+          while (std::chrono::steady_clock::now() < until)
+            {
+            }
+        }
+      return;
+    }
   const unsigned r = unsigned(h % 100);
   const unsigned p_sleep = (g_perturb.intensity >= 2 ? 4 : 0) + ((low && visit < 12) ? 30 : 0);
   const unsigned p_spin = g_perturb.intensity >= 1 ? 12 : 0;
@@ -166,6 +186,55 @@ run_workload(const json& c, int threads, bool perturb, uint64_t pseed)
           ProjDataInMemory res(w.data->get_exam_info_sptr(), w.pdi);
           w.pair->get_forward_projector_sptr()->forward_project(res, *w.image);
           append(out, res);
+        }
+      else if (workload == 6)
+        { // lazily built geometry tables used concurrently from the first call on (fresh ProjDataInfo):
+          // detector pair -> bin, bin -> all detector pairs, ring pairs, m / tan(theta)
+          // a ProjDataInfo object nobody has asked anything yet: its tables are built inside the parallel loop
+          const shared_ptr<ProjDataInfo> fresh_pdi = vg::make_pdi(w.sc, c["pdi"]);
+          // the constructor builds the ring-difference tables eagerly; every geometry setter re-arms their lazy
+          // construction (documented in ProjDataInfoCylindrical.h), e.g. after set_ring_spacing()
+          if (ProjDataInfoCylindrical* pc = dynamic_cast<ProjDataInfoCylindrical*>(fresh_pdi.get()))
+            if (c["subset"].get<int>() % 3 != 0)
+              pc->set_ring_spacing(pc->get_ring_spacing());
+          const ProjDataInfoCylindricalNoArcCorr* p = dynamic_cast<const ProjDataInfoCylindricalNoArcCorr*>(fresh_pdi.get());
+          if (!p)
+            throw std::runtime_error("workload 6 needs cylindrical no-arc-correction data");
+          const int ndet = w.sc->get_num_detectors_per_ring(), rings = w.sc->get_num_rings();
+          const long n = long(ndet) * ndet * rings * rings;
+          out.assign(std::size_t(n) * 3, 0.);
+          const bool tables_first = c["subset"].get<int>() % 2 == 0;
+#ifdef _OPENMP
+#  pragma omp parallel for schedule(dynamic)
+#endif
+          for (long i = 0; i < n; ++i)
+            {
+              const int d1 = int(i % ndet), d2 = int((i / ndet) % ndet), r1 = int((i / (long(ndet) * ndet)) % rings),
+                        r2 = int(i / (long(ndet) * ndet * rings));
+              if (d1 == d2)
+                continue;
+              Bin b;
+              double code = -1, npairs = 0, m = 0;
+              if (tables_first)
+                { // ring-difference tables are touched first through the coordinate functions
+                  m = p->get_m(Bin(0, 0, 0, 0)) + p->get_tantheta(Bin(p->get_max_segment_num(), 0, 0, 0));
+                }
+              if (p->get_bin_for_det_pos_pair(b, DetectionPositionPair<>(DetectionPosition<>(d1, r1), DetectionPosition<>(d2, r2), 0)) == Succeeded::yes
+                  && b.axial_pos_num() >= p->get_min_axial_pos_num(b.segment_num()) && b.axial_pos_num() <= p->get_max_axial_pos_num(b.segment_num())
+                  && b.tangential_pos_num() >= p->get_min_tangential_pos_num() && b.tangential_pos_num() <= p->get_max_tangential_pos_num())
+                {
+                  code = ((double(b.segment_num()) * 1000 + b.axial_pos_num()) * 1000 + b.view_num()) * 1000 + b.tangential_pos_num();
+                  std::vector<DetectionPositionPair<>> dps;
+                  p->get_all_det_pos_pairs_for_bin(dps, b);
+                  npairs = double(dps.size());
+                  for (auto& dp : dps)
+                    npairs += 1e-3 * (dp.pos1().axial_coord() + 2 * dp.pos2().axial_coord()) + 1e-6 * (dp.pos1().tangential_coord());
+                  m += p->get_m(b) + 10 * p->get_tantheta(b);
+                }
+              out[std::size_t(i) * 3] = code;
+              out[std::size_t(i) * 3 + 1] = npairs;
+              out[std::size_t(i) * 3 + 2] = m;
+            }
         }
       else if (workload == 1)
         { // back projection of a whole data set
@@ -313,7 +382,7 @@ gen(Src& s, int size)
   c["image"] = vg::gen_image(s, io);
   c["dseed"] = s.seed64();
   c["pseed"] = s.seed64();
-  c["workload"] = int(s.range(0, 5));
+  c["workload"] = int(s.range(0, 6));
   c["threads"] = int(s.pick(std::vector<int>{ 2, 2, 3, 4, 4, 7, 8, 12, 16, 24 }));
   c["reps"] = int(s.range(2, 6));
   c["cache"] = int(s.range(0, 2));
